@@ -227,6 +227,15 @@ func c07EnumerateSmall(thorough bool) []c07ID {
 			}
 		}
 	}
+	// a constructor as an operand: the words it ends with (extended SETLIST batch word) sit
+	// directly in front of the consuming instruction, where the operand propagation looks
+	for _, k := range []int{3, 51, 25549, 25550, 25551, 25599, 25600, 25601, 51150, 51151} {
+		for use := 0; use < c07CtorUses; use++ {
+			for env := 0; env < 3; env++ {
+				ids = append(ids, c07ID{Family: "ctoruse", P: []int{k, use, env}})
+			}
+		}
+	}
 	maxDepth := 60
 	if thorough {
 		maxDepth = 100
@@ -288,6 +297,10 @@ func c07Make(id c07ID) *c07Case {
 	case "ctor":
 		if need(3) {
 			return c07MakeCtor(id, p[0], p[1], p[2])
+		}
+	case "ctoruse":
+		if need(3) {
+			return c07MakeCtorUse(id, p[0], p[1], p[2])
 		}
 	case "nest":
 		if need(2) && p[0] >= 0 && p[0] < len(c07NestKinds) {
@@ -543,6 +556,53 @@ func c07MakeConsts(id c07ID, v, k int) *c07Case {
 		return nil
 	}
 	return &c07Case{ID: id, Src: sb.String(), Exec: true, Expect: expect, ExSig: fmt.Sprintf("consts/v%d", v), Note: fmt.Sprintf("%s (k=%d)", note, k)}
+}
+
+const c07CtorUses = 8
+
+// c07MakeCtorUse: a constructor with k positional items as operand of an operator, in a function
+// without locals (env 0: chunk level), with one local (env 1) and as a function with a parameter (env 2).
+func c07MakeCtorUse(id c07ID, k, use, env int) *c07Case {
+	if k < 1 || use < 0 || use >= c07CtorUses || env < 0 || env > 2 {
+		return nil
+	}
+	var sb strings.Builder
+	sb.WriteString("{")
+	for i := 1; i <= k; i++ {
+		fmt.Fprintf(&sb, "%d,", i%97)
+	}
+	sb.WriteString("}")
+	ctor := sb.String()
+	var expr string
+	var want float64
+	switch use {
+	case 0:
+		expr, want = "#"+ctor, float64(k)
+	case 1:
+		expr, want = "("+ctor+")["+fmt.Sprint(k)+"]", float64(k%97)
+	case 2:
+		expr, want = "#"+ctor+" + 1", float64(k+1)
+	case 3:
+		expr, want = "("+ctor+" == nil) and 1 or 2", 2
+	case 4:
+		expr, want = "(not "+ctor+") and 1 or 2", 2
+	case 5:
+		expr, want = "select('#', "+ctor+", 1)", 2
+	case 6:
+		expr, want = "#("+ctor+")", float64(k)
+	case 7:
+		expr, want = "({[1] = 5})[#"+ctor+" - "+fmt.Sprint(k-1)+"]", 5
+	}
+	var src string
+	switch env {
+	case 0:
+		src = "return " + expr
+	case 1:
+		src = "local z = 1 return " + expr
+	case 2:
+		src = "local function f(p) return " + expr + " end return f(1)"
+	}
+	return &c07Case{ID: id, Src: src, Exec: true, Expect: c07ExpectNum(want), ExSig: fmt.Sprintf("ctoruse/u%d/e%d", use, env), Note: fmt.Sprintf("constructor with %d items as an operand (use %d, surroundings %d)", k, use, env)}
 }
 
 func c07MakeCtor(id c07ID, k, keyed, tail int) *c07Case {
